@@ -129,8 +129,7 @@ def tlc(module, cfg, name=None, env=None, workers=None, timeout=3600, simulate=N
         s = line.strip()
         if s.startswith('"@@') and s.endswith('"'):
             # TLA+ string literal: unescape \" and \\
-            body = s[3:-1].replace('\\"', '"').replace("\\\\", "\\")
-            r.printed.append(body)
+            r.printed.append(_unescape_tla(s[3:-1]))
     if not r.ok and r.error is None:
         idx = r.stdout.find("Error:")
         txt = r.stdout[idx: idx + 6000] if idx >= 0 else r.stdout[-3000:]
@@ -142,6 +141,21 @@ def tlc(module, cfg, name=None, env=None, workers=None, timeout=3600, simulate=N
         for m in re.finditer(r"<(\w+) line (\d+), col \d+ to line \d+, col \d+ of module (\w+)>: (\d+):(\d+)", r.stdout):
             r.coverage["%s.%s@%s" % (m.group(3), m.group(1), m.group(2))] = (int(m.group(4)), int(m.group(5)))
     return r
+
+
+def _unescape_tla(t):
+    """The text of a TLA+ string literal as TLC prints it -> the string (sequential: \\\\ -> \\, \\" -> ", \\n, \\t)."""
+    out, i, n = [], 0, len(t)
+    while i < n:
+        ch = t[i]
+        if ch == "\\" and i + 1 < n:
+            nx = t[i + 1]
+            out.append({"n": "\n", "t": "\t", "r": "\r", "f": "\f"}.get(nx, nx))
+            i += 2
+        else:
+            out.append(ch)
+            i += 1
+    return "".join(out)
 
 
 def sany(module_path):
